@@ -161,6 +161,26 @@ def sc_records(tag, j, g, rng):
     dst, anom = hg.proj(r, g) if r is not None else (EMPTYJ, [])
     out.append(_rec(f"{tag}.from_max_simplices", "from_max_simplices", "from_max_simplices", src, dst, res,
                     sorted(set(sanom + anom))))
+    # cleanup of a complex (no singleton / multi-edge options: as the hypergraph cleanup that keeps both)
+    for iso, conn, rel in itertools.product([False, True], repeat=3):
+        r, res = _do(lambda: S.cleanup(isolates=iso, connected=conn, relabel=rel, in_place=False))
+        gg = g.after_relabel() if (rel and res == "ok") else g
+        dst, anom = hg.proj(r, gg) if r is not None else (EMPTYJ, [])
+        after, a2 = hg.proj(S, g)
+        out.append(_rec(f"{tag}.cleanup.{int(iso)}{int(conn)}{int(rel)}", f"SimplicialComplex.cleanup(isolates={iso}, connected={conn}, relabel={rel})",
+                        "cleanup", src, dst, res, sorted(set(sanom + anom + a2 + ([] if after == src else ["input-changed"]))),
+                        b=(iso, True, True, conn, rel)))
+    # << with a complex on the left: still the disjoint union of the edges, as a hypergraph
+    S2 = xgi.SimplicialComplex()
+    with warnings.catch_warnings():
+        warnings.simplefilter("ignore")
+        S2.add_simplex([g.node(n) for n in (j["nodes"][:2] or [0, 1])])
+        S2.add_simplex([g.node(1), g.node(6)])
+    src2, _ = hg.proj(S2, g)
+    r, res = _do(lambda: S << S2)
+    dst, anom = hg.proj(r, g) if r is not None else (EMPTYJ, [])
+    out.append(_rec(f"{tag}.lshift", "SimplicialComplex << SimplicialComplex", "lshift", src, dst, res, sorted(set(sanom + anom)),
+                    src2=src2))
     return out
 
 
